@@ -32,6 +32,16 @@ CHECKS['C02'] = dict(
          'signature-oracle stub for libsodium (valid(k,m,s) uninterpreted; sign returns s with valid(pub(seed),m,s)). Counterexamples are '
          'realised with real Ed25519 keys/signatures and replayed on the real package before being reported.',
     technique=TECH)
+CHECKS['C03'] = dict(
+    text='OP_CHECK_MULTISIG(_VERIFY) over the real OP_CHECK_SIG is executed symbolically for n <= 4 keys (5 thorough), every m <= n, '
+         'symbolic keys, signatures and flag bytes, with the whole validity matrix valid(key_j, message(flag_i), sig_i) left to the '
+         'solver, so duplicates, outsiders, two signatures by one key with different flags and every order are models, not samples. '
+         'Per path one unsat query: the verdict is true iff an injective assignment of the signatures to valid keys exists.',
+    design_ref='DESIGN.md section 4 C03',
+    note='Trusted: SX engine, z3, signature-oracle stub. Assumes pairwise distinct listed keys and that one signature string verifies '
+         'under at most one listed key (excludes model-only counterexamples to greedy matching). Counterexamples are realised with real '
+         'Ed25519 keys and signatures before being reported.',
+    technique=TECH)
 NOT_APPLICABLE = {}
 NOTES = ('Exit codes of every check: 0 held on everything explored; 1 + VIOLATION line for a counterexample that was '
          'replayed on the real package and is not a listed known finding; 2 harness error / unsupported construct / '
